@@ -715,7 +715,16 @@ func (fr *frame) applyContract(d *Decl, callee *ssa.Function, sig *types.Signatu
 		}
 	}
 	// bind clauses of the enclosing contract: name the results of the n-th call of key
-	fr.rootFr.recordBind(key, fr.rootFr.callSeq(key), res, sig, args, argT, g)
+	seq := fr.rootFr.callSeq(key)
+	if fr == fr.rootFr {
+		// calls of the function itself are numbered in source order, like at-call sites
+		if n := fr.sourceOrdinal(key, pos); n > 0 {
+			seq = n
+		}
+	} else {
+		seq = -1 // a call inside an inlined callee is not one of the function's own call sites
+	}
+	fr.rootFr.recordBind(key, seq, res, sig, args, argT, g)
 }
 
 // atCallClauses: `at-call <callee> requires[label] e` of the enclosing contract, over a0, a1, ... (actual arguments,
